@@ -279,6 +279,11 @@ func (lc *leaderController) NewTerm(req *proto.NewTermRequest) (*proto.NewTermRe
 	}
 
 	lc.followers = nil
+	// Make sure all the appended entries are synced, so that the head entry
+	// we report is the actual end of the log
+	if err := lc.wal.Sync(context.Background()); err != nil {
+		return nil, err
+	}
 	headEntryId, err := getLastEntryIdInWal(lc.wal)
 	if err != nil {
 		return nil, err
